@@ -1,14 +1,14 @@
 CONSTANTS
-  Nets <- MCNetsOne
-  Durations <- MCDurRel
-  Configs <- MCCfgShortFlipped
+  Nets <- MCNetsMin
+  Durations <- MCDurRelQ
+  Configs <- MCCfgQuick
   CheckPeriod = 5
   SendsPerSec = 15
   Slack = 1
   MaxFlight = 1
   D = 0
 INIT Init
-NEXT Next
+NEXT NextCfgs
 VIEW viewE
 INVARIANT TypeOK
 INVARIANT WithdrawnOnDisconnect
